@@ -215,7 +215,7 @@ where
         // 5. Let root be a new html element with no attributes.
         // 6. Append the element root to the Document node created above.
         // 7. Set up the parser's stack of open elements so that it contains just the single element root.
-        tb.create_root(vec![]);
+        tb.create_root(vec![], false);
         // 10. Reset the parser's insertion mode appropriately.
         let old_insertion_mode = tb.reset_insertion_mode();
         tb.mode.set(old_insertion_mode);
@@ -1345,11 +1345,12 @@ where
     }
 
     //§ creating-and-inserting-nodes
-    fn create_root(&self, attrs: Vec<Attribute>) {
-        let elem = create_element(
+    fn create_root(&self, attrs: Vec<Attribute>, had_duplicate_attributes: bool) {
+        let elem = create_element_with_flags(
             &self.sink,
             QualName::new(None, ns!(html), local_name!("html")),
             attrs,
+            had_duplicate_attributes,
         );
         self.push(&elem);
         self.sink.append(&self.doc_handle, AppendNode(elem));
